@@ -1007,7 +1007,15 @@ def load(mod):
     path = os.path.join(root, mod.replace('.', '/') + '.py')
     if not os.path.exists(path):
         path = os.path.join(root, mod.replace('.', '/'), '__init__.py')
-    tree = ast.parse(open(path).read())
+    return _index_module(mod, ast.parse(open(path).read()))
+
+
+def register_source(mod, source):
+    """A synthetic module of the ANALYSER (e.g. a scripted environment class), interpreted like repository code."""
+    return _index_module(mod, ast.parse(source))
+
+
+def _index_module(mod, tree):
     m = {'tree': tree, 'defs': {}, 'alias': {}, 'classes': {}, 'dispatch': {}, 'consts': {}}
     for n in tree.body:
         if isinstance(n, ast.FunctionDef):
@@ -1243,6 +1251,12 @@ JNP = {
     'arange': lambda n: np.arange(n),
     'float32': lambda x: x, 'float64': lambda x: x, 'int32': lambda x: x, 'inf': float('inf'), 'inexact': ('dtypeclass', 'inexact'), 'floating': ('dtypeclass', 'inexact'), 'integer': ('dtypeclass', 'integer'),
     'issubdtype': lambda d, c: _issubdtype(d, c),
+    # machine constants of the working precision (float32 unless the program asks otherwise), as exact rationals
+    'result_type': lambda *a: 'float32',
+    'finfo': lambda d=None: Struct('finfo', {'eps': Rat.lift(Fraction(1, 2 ** 23)), 'epsneg': Rat.lift(Fraction(1, 2 ** 24)),
+                                             'tiny': Rat.lift(Fraction(1, 2 ** 126)), 'smallest_normal': Rat.lift(Fraction(1, 2 ** 126)),
+                                             'max': Rat.lift((2 - Fraction(1, 2 ** 23)) * 2 ** 127),
+                                             'min': Rat.lift(-(2 - Fraction(1, 2 ** 23)) * 2 ** 127), 'bits': 32, 'dtype': 'float32'}),
     'ndarray': ('dtypeclass', 'ndarray'),
 }
 ANGLES = []    # field mode: (sin image, cos image, angle value) of angles known by construction
@@ -2037,6 +2051,19 @@ class Interp:
             for idx in np.ndindex(*shape):
                 a[idx] = uf('stdnormal', args[0], idx)
             return a
+        if name in ('copy.copy', 'copy.deepcopy'):
+            deep = name.endswith('deepcopy')
+            def cp(v, top=True):
+                if isinstance(v, Struct):
+                    return Struct(v.cls, {k: (cp(x, False) if deep else x) for k, x in v.f.items()}, home=v.home)
+                if isinstance(v, np.ndarray):
+                    return v.copy()
+                if isinstance(v, dict):
+                    return {k: (cp(x, False) if deep else x) for k, x in v.items()}
+                if isinstance(v, list):
+                    return [(cp(x, False) if deep else x) for x in v]
+                return v
+            return cp(args[0])
         if name == 'jax.ops.segment_sum':
             data, ids, num = asarr(args[0]), args[1], args[2] if len(args) > 2 else kw['num_segments']
             ids = [int(Rat.lift(i).constval()) for i in asarr(ids).ravel()]
